@@ -1,4 +1,4 @@
-package main
+package main_test
 
 // C04 — a utility ranking is exactly the order of the utilities.
 
